@@ -135,8 +135,13 @@ func TruncateInBytes(s string, n int) (string, bool) {
 	r := []rune(s)
 	truncationTarget := n - 3
 
-	// Next, let's truncate the runes to the lower possible number.
-	truncatedRunes := r[:truncationTarget]
+	// Next, let's truncate the runes to the lower possible number. A string
+	// of multi-byte runes can be longer than n bytes and still have fewer
+	// than n-3 runes, so only reslice when there are runes to drop.
+	truncatedRunes := r
+	if len(truncatedRunes) > truncationTarget {
+		truncatedRunes = r[:truncationTarget]
+	}
 	for len(string(truncatedRunes)) > truncationTarget {
 		truncatedRunes = r[:len(truncatedRunes)-1]
 	}
